@@ -128,6 +128,7 @@ def run(cfg, R):
             G.append(in_box(f"stored omega[:, {j}] in [min_{j}, max_{j}]", list(st[:, j]), lo_[off + j], hi_[off + j]))
         cdo = Codes(st)
         sb = g0.omega_border
+        border_goal.store = sb; border_goal.codes = {}
         if d == 1:
             G.append(shape_goal("stored border", sb, (2,)))
             G.append(("1-D border is the pair (xmin, xmax)", band(eq(sb[0], lo_[off]), eq(sb[1], hi_[off]))))
@@ -141,6 +142,12 @@ def run(cfg, R):
             tt = g0.times
             G.append(shape_goal("stored times", tt, (n + 1,)))
             G.append(in_box("stored times in [tmin, tmax]", list(tt.flat), lo_[0], hi_[0]))
+        # batches: every element is an element of the stored column it must come from (propositional position codes); together
+        # with the in-box goals of the stores above this gives "contains only points of the domain" without nonlinear ite terms
+        cds_o = [Codes(np.asarray(st, dtype=object)[:, j:j + 1]) for j in range(d)]
+        cd_t = Codes(np.asarray(g0.times, dtype=object).reshape(-1, 1)) if off else None
+        def member(cd, elems):
+            return tm.conj([bnot(eq(cd.row_of(e), const(-1, "Int"))) for e in elems])
         for c, bt in enumerate(outs):
             if not off:
                 G.append(shape_goal(f"batch {c} inside", bt.inside_batch, (b, d)))
@@ -148,7 +155,7 @@ def run(cfg, R):
                 nbb = (1 if d == 1 else b)
                 G.append(shape_goal(f"batch {c} border", brd, (nbb, d, 2 * d)))
                 for j in range(d):
-                    G.append(in_box(f"batch {c} inside[:, {j}] in box", list(ins[:, j]), lo_[j], hi_[j]))
+                    G.append((f"batch {c} inside[:, {j}] holds stored interior coordinates {j} (hence in the box)", member(cds_o[j], list(ins[:, j]))))
                 G.append(border_goal(c, brd, lo_, hi_, 0, d))
             else:
                 rows = b * b if cart else b
@@ -157,15 +164,16 @@ def run(cfg, R):
                 nbb = (1 if d == 1 else b)
                 rows_b = b * nbb if (cart or d == 1) else b
                 G.append(shape_goal(f"batch {c} times_x_border", txb, (rows_b, 1 + d, 2 * d)))
-                G.append(in_box(f"batch {c} time column in [tmin, tmax]", list(txi[:, 0]), lo_[0], hi_[0]))
+                G.append((f"batch {c} time column holds stored times (hence in [tmin, tmax])", member(cd_t, list(txi[:, 0]))))
                 for j in range(d):
-                    G.append(in_box(f"batch {c} inside[:, {1 + j}] in box", list(txi[:, 1 + j]), lo_[1 + j], hi_[1 + j]))
-                G.append(in_box(f"batch {c} border time rows in [tmin, tmax]", list(txb[:, 0, :].flat), lo_[0], hi_[0]))
+                    G.append((f"batch {c} inside[:, {1 + j}] holds stored interior coordinates {j} (hence in the box)", member(cds_o[j], list(txi[:, 1 + j]))))
+                G.append((f"batch {c} border time rows hold stored times", member(cd_t, list(txb[:, 0, :].flat))))
                 G.append(border_goal(c, txb[:, 1:, :], lo_, hi_, 1, d))
         return G
 
     def border_goal(c, brd, lo_, hi_, off, d):
         cs = []
+        sbA = np.asarray(border_goal.store, dtype=object) if d == 2 else None
         if d == 1:
             for i in range(brd.shape[0]):
                 cs.append(eq(brd[i, 0, 0], lo_[off])); cs.append(eq(brd[i, 0, 1], hi_[off]))
@@ -175,7 +183,8 @@ def run(cfg, R):
                 for i in range(brd.shape[0]):
                     cs.append(eq(brd[i, ax, fct], val))
                     e = brd[i, 1 - ax, fct]
-                    cs.append(band(le(lo_[off + 1 - ax], e), le(e, hi_[off + 1 - ax])))
+                    cdf = border_goal.codes.setdefault(fct, Codes(sbA[:, 1 - ax, fct].reshape(-1, 1)))
+                    cs.append(bnot(eq(cdf.row_of(e), const(-1, "Int"))))        # a stored free coordinate of this facet (in range by the store goal)
         return (f"batch {c} border points lie on their facet (xmin,xmax,ymin,ymax) and vary only along it", tm.conj(cs))
 
     def twins(A, O):
@@ -183,7 +192,7 @@ def run(cfg, R):
         g0, outs = O
         if kind == "param":
             st = g0.param_n_samples["nu"]
-            return [("stored samples[nu] in mu's range", tm.conj([band(le(lo_[1], e), le(e, hi_[1])) for e in st.flat]))]
+            return [("stored samples[nu] strictly below the midpoint of nu's range", tm.conj([lt(tm.mul(const(2, "Real"), e), tm.add(lo_[0], hi_[0])) for e in st.flat]))]
         if kind == "ode":
             st = g0.times
             return [("stored times strictly below the midpoint", tm.conj([lt(tm.mul(const(2, "Real"), e), tm.add(lo_[0], hi_[0])) for e in st.flat]))]
